@@ -21,11 +21,10 @@ Proof.
     simpl; intros H; try discriminate; auto.
 Qed.
 
-(** the margin of ContainsPoint as it stands in the translated code (5 * dblEpsilon since
-    the repair f0ed951; 1 * dblEpsilon before) *)
-Definition eps : PrimFloat.float := (0x1.4p-50)%float.
+(** the margin of ContainsPoint as it stands in the translated code: dblEpsilon *)
+Definition eps : PrimFloat.float := (0x1p-52)%float.
 Lemma eps_fin : fin eps. Proof. exact (lit_fin eps _ _ _ eq_refl). Qed.
-Lemma eps_RV : RV eps = 5 / 4503599627370496.
+Lemma eps_RV : RV eps = / 4503599627370496.
 Proof. unfold eps. lit_value. Qed.
 
 Lemma okbound_2 : okbound 2.
@@ -309,38 +308,63 @@ Proof.
   eapply id_range_contains_struct; eassumption.
 Qed.
 
-(** * The leaf premise: history and witnesses
-    Before the repair f0ed951 ContainsPoint expanded the rectangle by 1 dblEpsilon and the
-    documented "CellFromPoint(p).ContainsPoint(p) is always true" was false; the two unit
-    points found by the search are kept here: they fail with the old margin and pass with
-    the current code. *)
-Definition containspoint_with_margin (m : PrimFloat.float) (c : s2_Cell) (p : s2_Point) : bool :=
-  let '(u, v, ok) := s2_faceXYZToUV (wrap_i64 (s2_Cell_face c)) p in
-  if negb ok then false else r2_Rect_ContainsPoint (r2_Rect_ExpandedByMargin (s2_Cell_uv c) m) (mk_r2_Point u v).
+(** * From a round-trip bound on one coordinate to the leaf's interval test (closed)
+    If the float u is within dblEpsilon (in real arithmetic) of the uv bounds of leaf index i,
+    the float test of ContainsPoint on that coordinate succeeds: u is representable, so rounding
+    the expanded bound cannot carry it past u. *)
+Local Open Scope R_scope.
+Lemma leaf_interval_from_roundtrip (i : Z) u : (0 <= i < 2 ^ 30)%Z -> fin u ->
+  RV (UV i) - RV eps <= RV u <= RV (UV (i + 1)) + RV eps ->
+  r1_Interval_IsEmpty (Exp (mk_r1_Interval (UV i) (UV (i + 1)))) = false /\
+  r1_Interval_Contains (Exp (mk_r1_Interval (UV i) (UV (i + 1)))) u = true.
+Proof.
+  intros Hi Fu [Hlo Hhi].
+  destruct (UV_mono i (i + 1) ltac:(lia) ltac:(lia)) as ([FL RL] & [FH RH] & LH).
+  pose proof eps_fin as Fe. pose proof eps_RV as Re. assert (Pe : 0 < RV eps < 1) by (rewrite Re; lra).
+  destruct (sub_fin (UV i) eps FL Fe) as [F1 E1].
+  { apply (below_top _ 2 okbound_2). apply Rabs_le. lra. }
+  destruct (add_fin (UV (i + 1)) eps FH Fe) as [F2 E2].
+  { apply (below_top _ 2 okbound_2). apply Rabs_le. lra. }
+  assert (L1 : RV (PrimFloat.sub (UV i) eps) <= RV u).
+  { rewrite E1. rewrite <- (rnd_repr (RV u)) by apply repr_RV. apply rnd_le. exact Hlo. }
+  assert (L2 : RV u <= RV (PrimFloat.add (UV (i + 1)) eps)).
+  { rewrite E2. rewrite <- (rnd_repr (RV u)) at 1 by apply repr_RV. apply rnd_le. exact Hhi. }
+  unfold Exp, r1_Interval_Expanded, r1_Interval_IsEmpty. cbn [r1_Interval_Lo r1_Interval_Hi].
+  assert (E0 : PrimFloat.ltb (UV (i + 1)) (UV i) = false).
+  { apply ltb_false_iff; auto using fin_nonnan. rewrite !rank_fin by assumption. exact LH. }
+  rewrite E0. cbn [r1_Interval_Lo r1_Interval_Hi]. split.
+  - apply ltb_false_iff; auto using fin_nonnan. rewrite !rank_fin by assumption. lra.
+  - unfold r1_Interval_Contains. cbn [r1_Interval_Lo r1_Interval_Hi]. apply andb_true_iff.
+    split; apply leb_true_iff; auto using fin_nonnan; rewrite !rank_fin by assumption; assumption.
+Qed.
+Local Open Scope Z_scope.
 
-Lemma containspoint_margin c p : s2_Cell_ContainsPoint c p = containspoint_with_margin eps c p.
-Proof. apply containspoint_unfold. Qed.
-
+(** * The leaf premise is not always true of the code
+    The documented "CellFromPoint(p).ContainsPoint(p) is always true" fails for the unit point
+    wit1 (and wit2, which also fails at level 29): u lies 1.25 dblEpsilon below the lower u bound
+    of its own leaf, ContainsPoint expands the bound by 1 dblEpsilon.  Finding
+    Cell.ContainsPoint.leafMargin (status known; a 5*dblEpsilon margin was tried upstream of this
+    file and withdrawn because RectBound/CapBound are not sized for it). *)
 Definition wit1 : s2_Point :=
   mk_s2_Point (mk_r3_Vector (0x1.7eb16c58621d8p-3)%float (-0x1.c3f608ffa12fdp-1)%float (0x1.b975da6a83768p-2)%float).
 Definition wit2 : s2_Point :=
   mk_s2_Point (mk_r3_Vector (0x1.dcfd5bce2da59p-4)%float (-0x1.d378ae57d57b2p-1)%float (0x1.904c1fabf622ep-2)%float).
 
-Lemma leaf_contains_old_refuted :
+Lemma leaf_contains_refuted :
   exists p, s2_CellID_IsValid (s2_cellIDFromPoint p) = true /\ s2_CellID_IsLeaf (s2_cellIDFromPoint p) = true /\
-    containspoint_with_margin (0x1p-52)%float (s2_CellFromCellID (s2_cellIDFromPoint p)) p = false.
+    s2_Cell_ContainsPoint (s2_CellFromCellID (s2_cellIDFromPoint p)) p = false.
 Proof. exists wit1. vm_compute. auto. Qed.
 
-Example leaf_contains_now :
-  s2_Cell_ContainsPoint (s2_CellFromCellID (s2_cellIDFromPoint wit1)) wit1 = true /\
-  s2_Cell_ContainsPoint (s2_CellFromCellID (s2_cellIDFromPoint wit2)) wit2 = true /\
+Lemma leaf_contains_refuted_level29 :
+  s2_Cell_ContainsPoint (s2_CellFromCellID (s2_CellID_Parent (s2_cellIDFromPoint wit2) 29)) wit2 = false /\
   s2_cellIDFromPoint wit1 = 9882600488333328173%Z.
 Proof. vm_compute. auto. Qed.
 
-(** the hypotheses of [id_range_contains] are satisfiable: wit1, its leaf and the level-10 ancestor *)
+(** the hypotheses of [id_range_contains] are satisfiable: a point, its leaf and the level-10 ancestor *)
+Definition pt0 : s2_Point := mk_s2_Point (mk_r3_Vector (0x1.3333333333333p-1)%float (0x1.eb851eb851eb8p-2)%float (0x1.47ae147ae147bp-1)%float).
 Example id_range_contains_nonvacuous :
-  let l := s2_cellIDFromPoint wit1 in let c := s2_CellID_Parent l 10 in
+  let l := s2_cellIDFromPoint pt0 in let c := s2_CellID_Parent l 10 in
   s2_CellID_IsValid c = true /\ s2_CellID_IsValid l = true /\ s2_CellID_IsLeaf l = true /\
-  s2_CellID_Contains c l = true /\ s2_Cell_ContainsPoint (s2_CellFromCellID l) wit1 = true /\
-  s2_Cell_ContainsPoint (s2_CellFromCellID c) wit1 = true.
+  s2_CellID_Contains c l = true /\ s2_Cell_ContainsPoint (s2_CellFromCellID l) pt0 = true /\
+  s2_Cell_ContainsPoint (s2_CellFromCellID c) pt0 = true.
 Proof. vm_compute. repeat split. Qed.
